@@ -95,6 +95,9 @@ impl<'a> IntoIterator for &'a Directory {
     }
 }
 
+/// Upper bound for the number of entries memory is reserved for up front while parsing a directory.
+const MAX_PREALLOCATED_ENTRIES: usize = 16 * 1024;
+
 impl Directory {
     #[duplicate_item(
         fn_name                  cfg_async_filter       input_traits                         decompress(compression, binding)              read_varint(type, reader)                  async;
@@ -113,7 +116,8 @@ impl Directory {
 
         let num_entries = read_varint([usize], [reader])?;
 
-        let mut entries = Vec::<Entry>::with_capacity(num_entries);
+        // the entry count comes from the input and must not be trusted for the allocation
+        let mut entries = Vec::<Entry>::with_capacity(num_entries.min(MAX_PREALLOCATED_ENTRIES));
 
         // read tile_id
         let mut last_id = 0u64;
